@@ -148,6 +148,34 @@ def gen_bad(rng, st, spaces):
     return ["rename_cells", s, rng.choice(W.CELLS), rng.choice(["for", "_y", "r", "X"])]
 
 
+def gen_bad_obj(rng, live, spaces):
+    """the malformed stream, formulas given as OBJECTS (formula_objs): every API that accepts a formula, aimed at
+    targets that have something to lose - a cells holding inputs, a derived cells, a cells others were computed
+    from, a parametrised space with ItemSpaces.  Mostly objects modelx has a reason to refuse, sometimes ones it
+    accepts (the generator does not know which is which; the oracle judges what the operation did)."""
+    from . import formula_objs as FO
+    kind = rng.choice(FO.SUSPECT) if rng.random() < 0.75 else rng.choice(FO.KINDS)
+    cells = [(p, cn, c) for p, sp in spaces for cn, c in sp.cells.items()]
+    rich = [(p, cn, c) for p, cn, c in cells if c._impl.input_keys or c._is_derived()]
+    param = [p for p, sp in spaces if sp.formula is not None]
+    r = rng.random()
+    if r < 0.6 and cells:
+        p, cn, c = rng.choice(rich if rich and rng.random() < 0.7 else cells)
+        return ["set_formula_obj", p, cn, kind, rng.choice(FO.HOW[:3])]
+    if r < 0.75:
+        p, sp = rng.choice(spaces)
+        free = [n for n in W.CELLS if n not in sp.cells]
+        return ["new_cells_obj", p, rng.choice(free or W.CELLS), kind]
+    if r < 0.93:
+        p = rng.choice(param) if param and rng.random() < 0.8 else rng.choice(spaces)[0]
+        if rng.random() < 0.15:
+            return ["set_param", p, "BAD"]
+        return ["set_param_obj", p, kind, rng.choice(FO.HOW_SPACE)]
+    tops = set(live.m.spaces)
+    free = [n for n in W.TOP if n not in tops]
+    return ["new_space_obj", "-", rng.choice(free or W.TOP), [rng.choice(spaces)[0]] if rng.random() < 0.5 else [], kind]
+
+
 # ----------------------------------------------------------------------------- evaluation helpers
 
 def eval_everything(live, limit_spaces=None):
@@ -434,6 +462,8 @@ def gen_next(rng, live, cfg, prev=None, focus=None):
         st = {"spaces": {p: {"cells": set(sp.cells), "refs": set(sp._own_refs),
                              "bases": [W.rel(live.m, b) for b in sp._direct_bases]} for p, sp in spaces}}
         return gen_bad(rng, st, paths)
+    if k == "bad_obj":
+        return gen_bad_obj(rng, live, spaces)
     if prev and rng.random() < 0.5:
         earlier = [o for o in prev if o[0] == "eval"]
         if earlier:
@@ -678,6 +708,33 @@ def refusal_family():
     return out
 
 
+def formula_object_family():
+    """[(label, ops)]: one program per kind of formula OBJECT (formula_objs.KINDS).  A base A with a cells f that
+    holds an input and a caller g, a sub space B deriving both (B.f holds an input of its own), a parametrised
+    space P (cells h, ItemSpaces P[0], P[1] built) - everything evaluated; then the object is offered through every
+    API that accepts a formula: to the DERIVED cells first, to the cells holding inputs (attribute, method,
+    decorator), to the caller, as the formula of a new cells, as the formula of the parametrised space (attribute,
+    method) and of a new space.  Inputs are assigned again between the requests, so that a target always has
+    something to lose.  Nothing about 'must be refused' is asserted: the property's hooks judge each request."""
+    from . import formula_objs as FO
+    pre = [["new_space", "-", "A", []], ["set_ref", "A", "s", 2], ["new_cells", "A", "f", F(2, 1, "f", "s")],
+           ["new_cells", "A", "g", F(1, 1, "f")], ["new_space", "-", "B", ["A"]],
+           ["new_space", "-", "P", []], ["new_cells", "P", "h", F(0, 3)], ["set_param", "P", 1]]
+    inputs = [["set_value", "A", "f", 1, 25], ["set_value", "B", "f", 2, 26]]
+    out = []
+    for kind in FO.KINDS:
+        ops = [list(o) for o in pre + inputs] + [["evalall"]]
+        ops.append(["set_formula_obj", "B", "f", kind, "attr"])
+        for how in FO.HOW[:3]:
+            ops += [list(o) for o in inputs] + [["evalall"], ["set_formula_obj", "A", "f", kind, how]]
+        ops += [["evalall"], ["set_formula_obj", "A", "g", kind, "method"], ["new_cells_obj", "A", "k", kind]]
+        for how in FO.HOW_SPACE:
+            ops += [["set_param", "P", 1], ["evalall"], ["set_param_obj", "P", kind, how]]
+        ops += [["new_space_obj", "-", "D", ["A"], kind], ["evalall"]]
+        out.append(("formula given as the object %r" % kind, ops))
+    return out
+
+
 def run_family(out, stats, fam, hooks_factory, cfg, what, max_failures=6):
     """run the programs of a scenario family through a property's hooks"""
     refused = 0
@@ -829,7 +886,8 @@ def replay_struct(payload, out, hooks_factory, cfg):
 
 EDIT_KINDS = ("new_cells_src", "set_param", "new_space", "del_space", "rename_space", "new_cells", "set_formula", "set_cached", "del_cells",
               "rename_cells", "add_bases", "remove_bases", "set_ref", "del_ref", "set_mref", "del_mref",
-              "set_value", "clear", "clear_all", "clear_at", "allow_none")
+              "set_value", "clear", "clear_all", "clear_at", "allow_none",
+              "new_cells_obj", "set_formula_obj", "set_param_obj", "new_space_obj")
 
 
 def fresh_replay(ops, upto, name="F"):
